@@ -674,3 +674,37 @@ RECIPES += [
             frame = pd.DataFrame(mat, rowindex, colindex)
             dct[name] = frame''', "rddmig DataFrame with positional index / columns"),
 ]
+
+RECIPES += [
+    ("C13", "neutral", [], B, '''                for row in range(start_row, m.shape[0]):
+                    num = m[row, col]
+                    if num != 0.0:''', '''                for row in range(m.shape[0]):
+                    if row < start_row:
+                        continue
+                    num = m[row, col]
+                    if num != 0.0:''', "wtdmig rows above the start row skipped by continue"),
+    ("C13", "break", ["C13-R3"], B, '''                for row in range(start_row, m.shape[0]):
+                    num = m[row, col]
+                    if num != 0.0:''', '''                for row in range(m.shape[0]):
+                    if row <= start_row:
+                        continue
+                    num = m[row, col]
+                    if num != 0.0:''', "wtdmig first row of every column skipped by continue"),
+]
+
+RECIPES += [
+    ("C13", "neutral", [], B, '''                        mat[ri, ci] = real
+                        if form == 6:
+                            mat[ci, ri] = real
+''', '''                        mat[ri, ci] = real
+                        if form in (6,):
+                            mat[ci, ri] = real
+''', "rddmig mirror condition as a membership test"),
+    ("C13", "neutral", [], B, '''        f.write("*       ")
+        for j in range(r, npts):
+            f.write(form.format(t[j], d[j]))
+    else:''', '''        f.write(f"{'*':<8s}")
+        for j in range(r, len(d)):
+            f.write(form.format(t[j], d[j]))
+    else:''', "tabled1 last-line head through a formatted literal, loop bound len(d)"),
+]
